@@ -93,7 +93,8 @@ func isNonFatalConfig(
 
 		divider(combination, quantity, distribution)
 
-		if !common.IsDistributionFilled(distribution) {
+		if !common.IsDistributionFilled(distribution) ||
+			!common.IsDistributionFilledFor(combination, distribution) {
 			return false
 		}
 	}
@@ -205,7 +206,8 @@ func isSuitableConfig(
 
 		divider(combination, quantity, distribution)
 
-		if !common.IsDistributionFilled(distribution) {
+		if !common.IsDistributionFilled(distribution) ||
+			!common.IsDistributionFilledFor(combination, distribution) {
 			return false
 		}
 
